@@ -5,7 +5,7 @@ CONSTANTS
  PieceLen = 2
  MaxBuf = 3
  Modes <- ModesC14
- PatchCL = FALSE
+ PatchCL = TRUE
  Mut = "none"
  RecordHist = FALSE
  Monitor = FALSE
